@@ -22,7 +22,8 @@ from gambit.seq import SequenceFile
 from xh.taxo import fork_int, NoTracing
 
 P = json.loads(os.environ.get('XH_PARAMS', '{}') or '{}')
-TEXTS = ['plain', 'a,b', 'say "hi"', 'two\nlines', 'Escherichia coli üñï', '', ' padded ', "it's; tab\there", 'cr\r\nlf', '中文']
+TEXTS = ['plain', 'a,b', 'say "hi"', 'two\nlines', 'Escherichia coli üñï', '', ' padded ', "it's; tab\there", 'cr\r\nlf', '中文',
+         '-80C_freezer_isolate', '=A1+B1 @home']        # leading characters that spreadsheet software treats as formulas: must come through unchanged
 DISTS = [np.float32(0), np.float32(1), np.float32(0.1), np.float32(1) / np.float32(3), np.float32(1e-45), np.float32(0.99999994), np.float32(2.5e-7)]
 THRS = [0.5, 0.0, 1e-7, float(np.float32(0.7379808)), 0.1 + 0.2]
 DOC_COLUMNS = ['query', 'predicted.name', 'predicted.rank', 'predicted.ncbi_id', 'predicted.threshold', 'closest.distance', 'closest.description',
